@@ -177,8 +177,8 @@ Push(t) == pool' = Append(pool, t) /\ nops' = nops + 1
 AddLeaf ==
   /\ "Leaf" \in Acts /\ nops = 0 /\ Len(pool) < MaxLeaves
   /\ \E k \in 1..Len(Leaves) :
-       /\ \A j \in 1..Len(pool) : pool[j] # Mk(Leaves[k])
-       /\ pool' = Append(pool, Mk(Leaves[k])) /\ nops' = nops
+       /\ \A j \in 1..Len(pool) : pool[j] # Ann(Leaves[k])
+       /\ pool' = Append(pool, Ann(Leaves[k])) /\ nops' = nops
 
 CanStep == pool # <<>> /\ nops < MaxOps
 
@@ -283,7 +283,15 @@ DoCon ==
              /\ \A x, y \in 1..Len(ts) : SharedAgree(ts[x].ti, ts[y].ti)
              /\ Admissible(t) /\ Push(t)
 
-Next == DoCon \/ AddLeaf \/ DoUn \/ DoBin \/ DoGetitem \/ DoRed \/ DoSub \/ DoLam \/ DoStack
+\* a point mass at the newest term: Delta(name, point = Last, log_density)
+DeltaLds == << [c |-> "Num", v |-> Zero, dt |-> 0], [c |-> "Num", v |-> MkL(3, 1), dt |-> 0] >>
+DoDelta ==
+  /\ "Delta" \in Acts /\ CanStep
+  /\ \E n \in 1..Len(NewNames), d \in 1..Len(DeltaLds) :
+       LET t == Mk([c |-> "Delta", terms |-> << <<NewNames[n], Last, Mk(DeltaLds[d])>> >>])
+       IN Last.c # "Delta" /\ Admissible(t) /\ Push(t)
+
+Next == DoDelta \/ DoCon \/ AddLeaf \/ DoUn \/ DoBin \/ DoGetitem \/ DoRed \/ DoSub \/ DoLam \/ DoStack
         \/ DoCat \/ DoAlign \/ DoIndep
 
 Init == pool = <<>> /\ nops = 0
